@@ -140,6 +140,34 @@ Example C09_journaled_unwritten_recovered :
 Proof. exact journaled_unwritten_recovered. Qed.
 Print Assumptions C09_journaled_unwritten_recovered.
 
+(* a send whose transport RAISES - in write() (d = false: nothing reaches the wire) or in drain() after write() took the
+   bytes (d = true) - with the exception going to the caller and the object living on: nothing is undone, the journal row
+   stays and the number is spent; whatever follows (traffic, restarts) never uses again a number the transport saw *)
+Theorem C09_transport_fault_keeps_number : forall r h d m w',
+  class_free h = true -> own_number m = false ->
+  let w := run (fresh r) h in
+  send_fault d m w = (inr XIO, w') ->
+  let f := out_frame m (nout w) in
+  Inv w' /\ nout w' = nout w + 1 /\ sout (jt w') = nout w /\ In f (rout (jt w'))
+  /\ writes (log w') = writes (log w) ++ (if d then [f] else [])
+  /\ nout (restart w') = nout w + 1
+  /\ forall h', class_free h' = true ->
+       forall g f', In g (allwire w') -> original g = true ->
+                    In f' (skipn (length (allwire w')) (allwire (run w' h'))) -> original f' = true ->
+                    f_seq g < f_seq f'.
+Proof. exact transport_fault_keeps_number. Qed.
+Print Assumptions C09_transport_fault_keeps_number.
+
+(* Logon, order A (2), order B (3) leaves before drain() raises, restart: next_num_out 4, the new Logon is numbered 4 *)
+Example C09_drain_fault_then_restart :
+  class_free h_drain_fault = true /\
+  let w := run (fresh Initiator) h_drain_fault in
+  nout w = 4 /\ sout (jt w) = 3 /\ writes (log w) = [logon_frame 1; app_frame 2 1; app_frame 3 2]
+  /\ nout (restart w) = 4
+  /\ writes (log (run (restart w) [OConnect; OSend (logon_frame 0)])) = [logon_frame 4].
+Proof. exact drain_fault_example. Qed.
+Print Assumptions C09_drain_fault_then_restart.
+
 (* former D22 (repaired: an in-sequence Logout of the peer is counted and journaled before the session is torn down):
    the peer sent 1 (Logon) and 2 (Logout); next_num_in is 3, stored 2; after the restart the peer's Logon numbered 3 is
    accepted: ACTIVE, no ResendRequest *)
